@@ -606,6 +606,10 @@ fn run_schedule(sc: &Scenario, prefix: &[usize]) -> Result<Outcome, String> {
 		let expect = flusher_expect.clone();
 		Some(Box::new(move |step: usize, label: &'static str| {
 			let _g = rt_handle.enter();
+			// a thread parked inside rotate_memtable holds the memtable lock: reading now would block
+			if !tree.verif_active_memtable_readable() {
+				return;
+			}
 			let mut obs = ProbeObs {
 				step,
 				label,
@@ -639,6 +643,10 @@ fn run_schedule(sc: &Scenario, prefix: &[usize]) -> Result<Outcome, String> {
 		let rt_handle = su.world.rt.as_ref().unwrap().handle().clone();
 		Some(Box::new(move |step: usize, label: &'static str| {
 			let _g = rt_handle.enter();
+			// a thread parked inside rotate_memtable holds the memtable lock: reading now would block
+			if !tree.verif_active_memtable_readable() {
+				return;
+			}
 			let mut obs = ProbeObs {
 				step,
 				label,
@@ -669,6 +677,10 @@ fn run_schedule(sc: &Scenario, prefix: &[usize]) -> Result<Outcome, String> {
 		let n = n;
 		Some(Box::new(move |step: usize, label: &'static str| {
 			let _g = rt_handle.enter();
+			// a thread parked inside rotate_memtable holds the memtable lock: reading now would block
+			if !tree.verif_active_memtable_readable() {
+				return;
+			}
 			let returned_ok: Vec<bool> = (0..n).map(|i| board.returned[i].load(Ordering::SeqCst) && board.ok[i].load(Ordering::SeqCst)).collect();
 			let mut obs = ProbeObs {
 				step,
